@@ -238,6 +238,11 @@ func malformedKeys() []crypto.PublicKey {
 		(*ecdsa.PublicKey)(nil), &ecdsa.PublicKey{}, &ecdsa.PublicKey{Curve: elliptic.P256()},
 		(*rsa.PublicKey)(nil), &rsa.PublicKey{}, &rsa.PublicKey{N: big.NewInt(1), E: 3},
 		ecdsa.PublicKey{}, rsa.PublicKey{}, []byte{1, 2, 3}, new(int),
+		// containers of keys are not keys: an empty key set, sets of keys that
+		// cannot be used with the algorithm, a pointer to a key, a JWK-like map
+		[]crypto.PublicKey{}, []crypto.PublicKey(nil), []crypto.PublicKey{nil}, []crypto.PublicKey{ed25519.PublicKey(make([]byte, 32))}, []crypto.PublicKey{&rsa.PublicKey{N: big.NewInt(1), E: 3}},
+		[]crypto.PublicKey{ed25519.PublicKey(make([]byte, 32)), &ecdsa.PublicKey{}, []byte{1}}, []any{}, [0]crypto.PublicKey{}, map[string]crypto.PublicKey{}, map[string]any{"kty": "EC"},
+		new(crypto.PublicKey), struct{}{}, "", "key", 0, true, func() {}, make(chan int),
 	}
 }
 
